@@ -602,12 +602,57 @@ def _dtype_of(v):
 # ----------------------------------------------------------------- builtins
 
 
+def exact_list_len(ex, v):
+    """length of a derived list in terms of the lists it was built from (opt-in: ex.exact_list_len):
+    an unfiltered comprehension has the length of its iterable, seq * k has len(seq) * k"""
+    if isinstance(v, (TupleV,)) or (isinstance(v, ListV) and not v.opaque):
+        return NF.const(len(v.items))
+    if getattr(v, "version", 0) or getattr(v, "extended", None):
+        return None
+    comp = getattr(v, "comp", None)
+    if comp is not None and not comp["conds"]:
+        it = comp["iter"]
+        if isinstance(it, (ListV, TupleV)):
+            return exact_list_len(ex, it)
+        if isinstance(it, RangeV) and it.step.nf.as_const() == 1:
+            return None
+        return None
+    rp = getattr(v, "repeat", None)
+    if rp is not None:
+        seq, k = rp
+        ln = exact_list_len(ex, seq)
+        if ln is None or not isinstance(k, Num):
+            return None
+        c = ln.as_const()
+        if c is None:
+            # a decided `len(seq) == c` on the current path pins the factor
+            for cond, val in ex.facts:
+                t = cond.t
+                if t[0] == "cmp" and t[1] == "==0" and val:
+                    for sgn in (1, -1):
+                        d = (ln - t[2] * sgn).as_const()
+                        if d is not None:
+                            c = d
+                    if c is not None:
+                        break
+        if c is None:
+            return None
+        return k.nf * c
+    if getattr(v, "slice_of", None) is not None or getattr(v, "parts", None) is not None:
+        return None
+    return app("listlen", v.lid, getattr(v, "version", 0))
+
+
 @model("builtins.len")
 def _len(ex, args, kwargs, node):
     v = args[0]
     if isinstance(v, (TupleV,)) or (isinstance(v, ListV) and not v.opaque):
         return Num(NF.const(len(v.items)), (), "int", meta={"kind": "COUNT"})
     if isinstance(v, ListV):
+        if getattr(ex, "exact_list_len", False):
+            nf = exact_list_len(ex, v)
+            if nf is not None:
+                return Num(nf, (), "int", meta={"kind": "COUNT", "len_of": v})
         r = ex.mk("listlen", v.lid, getattr(v, "version", 0), shape=(), dtype="int")
         r.meta["len_of"] = v
         return r
